@@ -116,9 +116,10 @@ def classify_files(files, boot):
     return live, sure, corrupt
 
 
-def accept_sets(files, boot, unit, limit, force, primary_only=False):
+def accept_sets(files, boot, unit, limit, force, primary_only=False, details=None):
     """All deletion sets the statement allows.  files: dicts name/kind/ts/cmds/size/locked.
-    Returns (set of frozenset(names), decision label of the primary reading)."""
+    Returns (set of frozenset(names), decision label of the primary reading); `details` (a list)
+    receives (candidate deletion prefix, label) of every reading."""
     live, sure, corrupt = classify_files(files, boot)
     accept, label = set(), None
     # an unreadable member is either left alone (None) or collected as a file of its mtime with 0 / its
@@ -133,6 +134,8 @@ def accept_sets(files, boot, unit, limit, force, primary_only=False):
             for keep_n in sorted(_keep_counts(order, unit, limit)):
                 outs, lab = _outcomes(order, keep_n, unit, limit, force, live)
                 accept |= outs
+                if details is not None:
+                    details.append((frozenset(f["name"] for f in order[: len(order) - keep_n]), lab))
                 if label is None:
                     label = lab
                 if primary_only:
@@ -140,33 +143,30 @@ def accept_sets(files, boot, unit, limit, force, primary_only=False):
     return accept, label
 
 
-def classify_mismatch(files, boot, unit, limit, force, deleted, accept, refused_msg):
+def classify_mismatch(files, boot, unit, limit, force, deleted, refused_msg):
     """Name the violated clause of the statement (stable, input-independent signature)."""
     live, sure, corrupt = classify_files(files, boot)
-    live_names = {f["name"] for f in live}
-    if deleted & live_names:
+    if deleted & {f["name"] for f in live}:
         return "locked-deleted"
-    cands = sure + corrupt
     by = {f["name"]: f for f in files}
     readable_deleted = [by[n] for n in deleted if by[n]["kind"] == "ok"]
     for s in sure:
         if s["name"] not in deleted and any(s["ts"] < d["ts"] for d in readable_deleted):
             return "not-oldest-first"
+    details = []
+    accept_sets(files, boot, unit, limit, force, details=details)
+    labels = {lab for _, lab in details}
     if not deleted:
-        if refused_msg:
-            return "refused-but-must-run"
-        return "under-delete:deleted-nothing"
-    if accept == {frozenset()}:
-        _, label = accept_sets(files, boot, unit, limit, force, primary_only=True)
-        if label == "must-refuse":
-            return "refusal-missing"
+        return "refused-but-must-run" if refused_msg else "under-delete:deleted-nothing"
+    if any(full == deleted and lab == "must-refuse" for full, lab in details):
+        return "refusal-missing"  # the right files, but the run had to be refused
+    if labels == {"within-limit"}:
         return "deleted-within-limit"
-    nonempty = [a for a in accept if a]
-    if nonempty and all(a < deleted for a in nonempty):
+    fulls = [full for full, _ in details if full]
+    if fulls and all(full < deleted for full in fulls):
         return "over-delete"
-    if nonempty and all(deleted < a for a in nonempty):
+    if fulls and all(deleted < full for full in fulls):
         return "under-delete:partial"
-    del cands
     return "wrong-set"
 
 
@@ -350,8 +350,10 @@ def _gc_json(size, force, boot, via_env=False):
 
 def _limits(files, boot, unit, rich):
     """Every boundary value of the limit for this collection and unit: each point where the reference
-    outcome can change as a function of the limit (fit boundaries = newest-first partial sums, refusal
-    boundaries = discarded amount), each with -1/0/+1, plus 0 and total+1."""
+    outcome can change as a function of the limit (fit boundaries = newest-first partial sums / ages,
+    refusal boundaries = discarded amount), 0 and total+1.  rich: the full -1/0/+1 (and +-0.5 s)
+    neighbourhood of every boundary; otherwise the two sides of every boundary (v-1, v) for b and
+    (a-1, a+1) for s - the exactly-at-the-age point is left open by the oracle anyway."""
     live, sure, corrupt = classify_files(files, boot)
     vals = {0}
     subsets = [sure] + ([sure + corrupt] if corrupt else [])
@@ -367,16 +369,15 @@ def _limits(files, boot, unit, rich):
             for f in order:
                 sums.append(sums[-1] + f["size"])
             for k, p in enumerate(sums):
-                vals.update((p - 1, p, p + 1))
+                vals.update((p - 1, p, p + 1) if rich else (p - 1, p))
                 nxt = sums[k + 1] if k + 1 < len(sums) else total + 2
                 d = total - p  # discarded while the limit is in [p, nxt)
                 vals.update(v for v in (d - 1, d, d + 1) if p <= v < nxt)
+            vals.add(total + 1)
         else:
             ages = sorted({NOW - f["ts"] for f in order})
             for a in ages:
-                vals.update((a - 1, a, a + 1))
-                if rich:
-                    vals.update((a - 0.5, a + 0.5))
+                vals.update((a - 1, a - 0.5, a, a + 0.5, a + 1) if rich else (a - 1, a + 1))
             if ages:
                 vals.update((ages[-1] / 2 - 1, ages[-1] / 2, ages[-1] / 2 + 1, ages[-1] - 0.5))
     vals = sorted(v for v in vals if v >= 0)
@@ -421,11 +422,15 @@ def _judge(files, boot, unit, limit, force, deleted, crash, refused):
     acc, _ = accept_sets(files, boot, unit, limit, force)
     if deleted in acc:
         return None
-    return classify_mismatch(files, boot, unit, limit, force, deleted, acc, refused), sorted(sorted(a) for a in acc)
+    return classify_mismatch(files, boot, unit, limit, force, deleted, refused), sorted(sorted(a) for a in acc)
 
 
 def _key(clause, unit, limit, force):
-    return f"json:{clause}:{unit}:{'limit=0' if limit == 0 else 'limit>0'}:{'forced' if force else 'unforced'}"
+    """<clause>[:<unit>][:limit=0] - which guarantee broke, in which unit's selection; the 0 boundary is
+    kept apart because it is a separate code path (slices / empty sub-selects)."""
+    if clause == "locked-deleted":  # decided by the file listing, not by the unit
+        return "json:locked-deleted"
+    return f"json:{clause}:{unit}" + (":limit=0" if limit == 0 else "")
 
 
 _CFG = {}  # n -> {"boots": "all"|"ends", "pads": (0, 1), "rich": bool}
@@ -449,6 +454,8 @@ def _check_collection(item):
                 dirty = False
                 for limit in _limits(files, boot, unit, cfg["rich"]):
                     for force in (False, True):
+                        if force and not cfg["rich"] and accept_sets(files, boot, unit, limit, False, primary_only=True)[1] == "within-limit":
+                            continue  # larger collections: --force only where the history exceeds the limit
                         if dirty:
                             _materialise(states, mask, pad)
                         deleted, crash, refused = _gc_json((limit, unit), force, boot)
@@ -632,7 +639,7 @@ def _check_spellings(only_canon):
                     if mult is None or mult > 1024 or value == 0 and fi > 1:
                         continue
                     for via_env in (False, True):
-                        for force in (False, True):
+                        for force in (True, False):
                             _clean_histdir()
                             files, top = _materialise(states, 0, 0)
                             boot = _boot_value(top, 0)
@@ -822,7 +829,8 @@ def run(ctx):
         rule=(
             f"every collection of <= {nmax} history files (state per file: commands in {{0,1,2,3}} x locked flag, or an empty / truncated file; "
             "equal-timestamp patterns; boot positions making locks stale) x unit {files,commands,s,b} x every boundary value of the limit "
-            "x force, each executed through the real JsonHistory.run_gc on real files; plus every truncation length of a genuine file, every "
+            "x force, each executed through the real JsonHistory.run_gc on real files (the largest sizes are narrowed as listed under bounds); "
+            "plus every truncation length of a genuine file, every "
             "spelling accepted by to_history_tuple, and SqliteHistory.run_gc on every table of <= 5 rows x tie pattern x insertion order x keep 0..6. "
             "non-trivial = runs where the history exceeds the limit (something must be deleted or the run refused)"
         ),
@@ -833,7 +841,25 @@ def run(ctx):
         json_runs_that_refused=totals.get("refusals", 0),
         spellings_checked=totals.get("spellings", 0),
         sqlite_runs=sq_tot["evals"],
-        bounds={"max_files": nmax, "command_counts": [0, 1, 2, 3], "sqlite_rows": 5, "sqlite_keep": [0, 6]},
+        bounds={
+            "max_files": nmax,
+            "command_counts": [0, 1, 2, 3],
+            "per_collection_size": {
+                str(n): {
+                    "tie_patterns": masks_mode(n),
+                    "boot_positions": _CFG[n]["boots"],
+                    "max_corrupt_members": max_corrupt(n),
+                    "locked_members_2_commands_only_when_corrupt_present": bool(narrow_corrupt(n)),
+                    "byte_paddings": list(_CFG[n]["pads"]),
+                    "full_limit_neighbourhood_and_force_everywhere": _CFG[n]["rich"],
+                    "files_and_s_units_only_for_command_counts_0_2": bool(_CFG[n].get("narrow")),
+                }
+                for n in range(0, nmax + 1)
+            },
+            "sqlite_rows": 5,
+            "sqlite_keep": [0, 6],
+            "sqlite_all_insertion_orders_up_to_rows": sqlite_all_orders,
+        },
     )
     ctx.assumptions += [
         "history files carry timestamps not later than the (virtual) current time; limits are >= 0",
@@ -851,6 +877,13 @@ def run(ctx):
 
 
 def replay(rec):
+    try:
+        return _replay(rec)
+    finally:
+        shutil.rmtree(common.scratch_root(), ignore_errors=True)
+
+
+def _replay(rec):
     case = rec["case"]
     _init_worker()
     part = case.get("part")
@@ -891,6 +924,4 @@ def replay(rec):
     print(f"virtual now={NOW:g} boot={boot:g}; run_gc(size={size!r}, force={case['force']})")
     print("observed deleted :", sorted(deleted), "| crash:", crash, "| refusal warning printed:", refused)
     print("expected deletion set, one of:", sorted(sorted(a) for a in acc), f"({label})")
-    bad = crash or deleted not in acc
-    shutil.rmtree(_W.data, ignore_errors=True)
-    return 1 if bad else 0
+    return 1 if (crash or deleted not in acc) else 0
